@@ -5,8 +5,9 @@ reported at that object with the right kind for all 16 settings of the ignore op
 nothing else is reported - incl. texts that differ only in non-ASCII characters, case or blanks (texts are interned by exact
 string, so distinct texts are distinct integers in the model); (3) related (0..3 edits + reordering) and unrelated pairs: reports nothing <=> agree_py; (4) swapping
 the operands swaps additions and deletions (multisets of node paths); (5) cancompare: flags -> ignore dict.
-Tie: the CompareResult tree (result, type, ref of every node, children in the order Python appended them) vs
-model/Compare.v:compare_db on the same pair (cmd 1301), cli flags (cmd 1302)."""
+Tie: the CompareResult tree (result, type, ref of every node) vs model/Compare.v:compare_db on the same pair (cmd 1301), in
+canonical form on both sides: siblings sorted and "removed" read as "deleted", because the property fixes neither an order
+among the nodes nor the spelling of a deletion; cli flags (cmd 1302)."""
 import collections
 import contextlib
 import copy
@@ -167,6 +168,26 @@ def enc_tree(res, I, vtids):
             go(c, n, d + 1)
     go(res, None, 0)
     return out
+
+
+def canon_tree(groups):
+    """canonical form of an encoded answer for the model/implementation tie.  The property observes result, type and ref of
+    every node and names three KINDS of report (addition, deletion, change): it fixes neither an order among sibling nodes nor
+    the spelling of the kind.  So siblings are sorted and "removed" (4) is read as "deleted" (3) - on both sides."""
+    if not groups or groups[0] != [1]:
+        return tuple(map(tuple, groups))
+    nodes_ = groups[1:]
+    pos = [0]
+
+    def build(depth):
+        g = nodes_[pos[0]]
+        pos[0] += 1
+        kids = []
+        while pos[0] < len(nodes_) and nodes_[pos[0]][0] == depth + 1:
+            kids.append(build(depth + 1))
+        return (3 if g[1] == 4 else g[1],) + tuple(g[2:]) + (tuple(sorted(kids)),)
+    root = build(0)
+    return (1, root) if pos[0] == len(nodes_) else tuple(map(tuple, groups))
 
 
 # --------------------------------------------------------------------------- reading a report (search side)
@@ -1241,22 +1262,23 @@ def run(chk):
         chk.count("pairing-%s-%s" % (tag, "crosswise" if inco else "by-name"))
         inp = describe(a, b, bits, dict(paired=[(x.name, y.name) for x, y in pairs]))
         # unconditional: frames added/deleted swap as lists; unpaired frames are reported
-        if root_frames(r2, ("added",)) != root_frames(r1, ("deleted",)) or root_frames(r1, ("added",)) != root_frames(r2, ("deleted",)):
+        if (sorted(root_frames(r2, ("added",))) != sorted(root_frames(r1, ("deleted", "removed")))
+                or sorted(root_frames(r1, ("added",))) != sorted(root_frames(r2, ("deleted", "removed")))):
             chk.violation(key, "the frames reported added and deleted do not swap with the operands", inp,
-                          dict(deleted_ab=root_frames(r1, ("deleted",)), added_ab=root_frames(r1, ("added",))),
-                          dict(added_ba=root_frames(r2, ("added",)), deleted_ba=root_frames(r2, ("deleted",))))
-        miss = ([n for n in lone_a if n not in root_frames(r1, ("deleted",))] + [n for n in lone_b if n not in root_frames(r1, ("added",))])
+                          dict(deleted_ab=root_frames(r1, ("deleted", "removed")), added_ab=root_frames(r1, ("added",))),
+                          dict(added_ba=root_frames(r2, ("added",)), deleted_ba=root_frames(r2, ("deleted", "removed"))))
+        miss = ([n for n in lone_a if n not in root_frames(r1, ("deleted", "removed"))] + [n for n in lone_b if n not in root_frames(r1, ("added",))])
         if miss:
             chk.violation(key, "a frame that is paired with no frame of the other matrix (by name, else by identifier) is not reported "
                           "as deleted resp. added", inp, dict(deleted=lone_a, added=lone_b),
-                          dict(deleted=root_frames(r1, ("deleted",)), added=root_frames(r1, ("added",))))
+                          dict(deleted=root_frames(r1, ("deleted", "removed")), added=root_frames(r1, ("added",))))
         if not (envelope(a) and envelope(b)):
             chk.count("pairing-judged-partially (duplicate names or identifiers)")
             return
-        if sorted(root_frames(r1, ("deleted",))) != sorted(lone_a) or sorted(root_frames(r1, ("added",))) != sorted(lone_b):
+        if sorted(root_frames(r1, ("deleted", "removed"))) != sorted(lone_a) or sorted(root_frames(r1, ("added",))) != sorted(lone_b):
             chk.violation(key, "the frames reported deleted / added are not exactly the frames without partner", inp,
                           dict(deleted=sorted(lone_a), added=sorted(lone_b)),
-                          dict(deleted=root_frames(r1, ("deleted",)), added=root_frames(r1, ("added",))))
+                          dict(deleted=root_frames(r1, ("deleted", "removed")), added=root_frames(r1, ("added",))))
         compared = sorted(c.ref.name for c in r1.children if c.type == "FRAME" and c.result not in ("deleted", "added"))
         if compared != sorted(x.name for x, _ in pairs):
             chk.violation(key, "not every pair of frames is compared exactly once", inp, sorted(x.name for x, _ in pairs), compared)
@@ -1578,23 +1600,29 @@ def run(chk):
         return
     out = core.run_model(lines)
     bad = 0
+    parsed = []
     for inf, exp, o in zip(info, expect, out):
         got = core.parse_out(o)
-        if got != exp:
+        parsed.append(got)
+        if canon_tree(got) != canon_tree(exp):
             bad += 1
-            diff = next((i for i, (x, y) in enumerate(zip(got, exp)) if x != y), min(len(got), len(exp)))
-            chk.tie_break("compare", dict(inf, first_difference_at_node=diff), got[max(0, diff - 1):diff + 2], exp[max(0, diff - 1):diff + 2])
+            key = lambda g: sorted(tuple([3 if x[1] == 4 else x[1]] + x[2:]) for x in g[1:]) if g and g[0] == [1] else g
+            only_m = [x for x in key(got) if x not in key(exp)][:3] if got and got[0] == [1] and exp and exp[0] == [1] else got[:3]
+            only_i = [x for x in key(exp) if x not in key(got)][:3] if got and got[0] == [1] and exp and exp[0] == [1] else exp[:3]
+            chk.tie_break("compare", dict(inf, note="nodes (result, type, arg1, arg2, ref) on one side only; sibling order and "
+                                                    "the spelling removed/deleted are not compared"), only_m, only_i)
     if os.environ.get("C13_DEBUG"):
         for t in chk.tie_breaks[:int(os.environ["C13_DEBUG"])]:
             print("TIE", t["case"], "\n   model", t["model"], "\n   impl ", t["impl"])
-    chk.ties["correspondence"] = {"suite": "compare_db tree (cmd 1301) + cli flags (1302)", "cases": len(lines), "disagreements": bad}
+    chk.ties["correspondence"] = {"suite": "compare_db tree (cmd 1301; siblings sorted, removed = deleted) + cli flags (1302)", "cases": len(lines), "disagreements": bad}
     idx = rng.sample(range(len(lines)), min(150, len(lines)))
     shard = []
     for i in idx:
         c, groups = lines[i].split(" ", 1)
-        shard.append((int(c, 16), core.parse_out(groups), expect[i]))
+        # vm_compute vs the extracted driver, exactly; the driver's answers are compared with the implementation above (canonical form)
+        shard.append((int(c, 16), core.parse_out(groups), parsed[i]))
     mm, log = core.coq_shard(shard, "c13", timeout=900)
-    chk.ties["vm_compute_shard"] = {"cases": len(shard), "mismatches": mm}
+    chk.ties["vm_compute_shard"] = {"cases": len(shard), "mismatches": mm, "compares": "in-Coq vm_compute vs extracted driver (exact)"}
     if mm is None:
         chk.obligation_failures.append("in-Coq shard failed to evaluate")
         chk.build_log = log[-3000:]
